@@ -146,7 +146,8 @@ def gen(rng):
         spec["offset"] = rng.choice([0, 1, 7, BLOCK])
     hist = []
     for _ in range(rng.choice([0, 1, 1, 2])):
-        hist.append(rng.choice(["rst", "503", "307", "308", "303", "301", "302"]))
+        # ("stall": the request is received in full and never answered -- the read times out and the attempt is repeated)
+        hist.append(rng.choice(["rst", "503", "307", "308", "303", "301", "302", "stall"]))
     fh = None
     c = rng.random()
     if c < 0.08 and kind not in ("none",):
@@ -182,6 +183,8 @@ def run(sc: dict) -> Result:
     for h in hist:
         if h == "rst":
             ex.append({"k": "rst"})
+        elif h == "stall":
+            ex.append({"k": "stall"})
         elif h == "503":
             ex.append({"k": "resp", "status": 503, "body": "busy"})
         else:
